@@ -150,6 +150,11 @@ func (h *h3run) writerRequest(r *u.Rng, i int) {
 			return
 		}
 	}
+	opaque := false
+	if r.Chance(1, 8) { // opaque URLs: RequestURI() is not a path; the writer strips scheme://host or refuses
+		opaque = true
+		ur = &url.URL{Scheme: "https", Host: host, Opaque: pick(r, []string{"//" + host + "/op?x=1", "//other.example/q", "opaque-thing", "//" + host, "//" + host + "*"})}
+	}
 	req := &http.Request{Method: method, URL: ur, Header: genHeader(r, false), Proto: "HTTP/1.1", ProtoMajor: 1, ProtoMinor: 1}
 	if r.Chance(1, 4) {
 		req.Host = "override.example"
@@ -180,6 +185,7 @@ func (h *h3run) writerRequest(r *u.Rng, i int) {
 		}
 	}()
 	fs, err := http3.VerifEncodeRequest(req, gzip)
+	h3wRequestCase(h.w, req, gzip, fs, err)
 	if err != nil {
 		h.dist["request:writer-error"]++
 		if strings.HasPrefix(err.Error(), "verif:") {
@@ -213,7 +219,12 @@ func (h *h3run) writerRequest(r *u.Rng, i int) {
 	if got.Method != wantMethod || got.Host != wantHost {
 		h.monfail("h3writers/request-differs", fmt.Sprintf("method %q host %q after the round trip", got.Method, got.Host), detail)
 	}
-	if !isConnect || isExt {
+	if (!isConnect || isExt) && opaque {
+		want := strings.TrimPrefix(ur.RequestURI(), "https://"+wantHost)
+		if got.URL.RequestURI() != want {
+			h.monfail("h3writers/request-differs", fmt.Sprintf("target %q after the round trip, want %q", got.URL.RequestURI(), want), detail)
+		}
+	} else if !isConnect || isExt {
 		wantPath := ur.Path
 		if wantPath == "" {
 			wantPath = "/"
@@ -309,6 +320,25 @@ func (h *h3run) writerResponse(r *u.Rng, i int) {
 	if r.Chance(1, 6) {
 		trailerVals[http.TrailerPrefix+"X-Late"] = []string{"v"}
 	}
+	// trailer sets in which nothing (or not everything) can be sent: declared but never filled in,
+	// empty value slices, names that may not be sent in a trailer section
+	switch r.Intn(10) {
+	case 0: // declared, never filled in
+		trailerVals = http.Header{}
+		hdr["Trailer"] = []string{"X-T1"}
+	case 1: // declared, empty value slice
+		trailerVals = http.Header{"X-T1": {}}
+		hdr["Trailer"] = []string{"X-T1"}
+	case 2: // only names that must not be sent as trailers, through the "Trailer:" prefix
+		trailerVals = http.Header{http.TrailerPrefix + pick(r, []string{"Upgrade", "Connection", "Keep-Alive"}): {"x"}}
+		delete(hdr, "Trailer")
+	case 3: // mixture: one sendable with a value, one empty, one unsendable
+		trailerVals = http.Header{"X-T1": {"v"}, "Grpc-Status": {}, http.TrailerPrefix + "Upgrade": {"x"}}
+		hdr["Trailer"] = []string{"X-T1, Grpc-Status"}
+	case 4: // only an empty late trailer
+		trailerVals = http.Header{http.TrailerPrefix + "X-Late": {}}
+		delete(hdr, "Trailer")
+	}
 	early := r.Bool()
 	detail := fmt.Sprintf("response status=%d body=%d header=%q trailers=%q trailers-set-before-WriteHeader=%v", status, len(body), hdr, trailerVals, early)
 	defer func() {
@@ -316,11 +346,47 @@ func (h *h3run) writerResponse(r *u.Rng, i int) {
 			h.monfail("h3writers/panic", fmt.Sprint(p), detail)
 		}
 	}()
-	fs, tfs, err := http3.VerifEncodeResponse(status, hdr, body, trailerVals, early)
+	fs, tfs, snap1, snap2, err := http3.VerifEncodeResponseSnap(status, hdr, body, trailerVals, early)
+	h3wResponseCases(h.w, status, hdr, body, trailerVals, early, fs, tfs, snap1, snap2, err)
+	if err != nil && strings.HasPrefix(err.Error(), "verif: trailers:") {
+		h.dist["response-trailers:undecodable"]++
+		h.monfail("h3writers/response-trailers-undecodable", "the response writer emitted a trailer HEADERS frame the peer cannot decode: "+err.Error(), detail)
+		err = nil
+	}
 	if err != nil {
 		h.dist["response:writer-error"]++
 		h.monfail("h3writers/response-undecodable", err.Error(), detail)
 		return
+	}
+	// emit / no-emit decision: a trailer section is sent iff some declared (or "Trailer:"-prefixed),
+	// sendable trailer has at least one value; an all-skipped set must emit NO section
+	{
+		sendable := func(k string) bool {
+			lk := strings.ToLower(k)
+			return !rfcNoTrailer[lk] && !rfcConnSpecific[lk] && !strings.HasPrefix(lk, "if-")
+		}
+		want := false
+		for _, v := range hdr["Trailer"] {
+			for _, t := range strings.Split(v, ",") {
+				t = http.CanonicalHeaderKey(strings.TrimSpace(t))
+				if sendable(t) && len(trailerVals[t]) > 0 {
+					want = true
+				}
+			}
+		}
+		for k, vs := range trailerVals {
+			if strings.HasPrefix(k, http.TrailerPrefix) && sendable(strings.TrimPrefix(k, http.TrailerPrefix)) && len(vs) > 0 {
+				want = true
+			}
+		}
+		if want != (tfs != nil) && err == nil {
+			h.monfail("h3writers/response-trailers-emit-decision", fmt.Sprintf("trailer section emitted=%v, want %v", tfs != nil, want), detail)
+		}
+		if want {
+			h.dist["response-trailers:expected"]++
+		} else {
+			h.dist["response-trailers:none-expected"]++
+		}
 	}
 	detail += " emitted=" + fieldsText(fs)
 	if i < 6 {
@@ -412,6 +478,21 @@ func (h *h3run) writerTrailers(r *u.Rng, i int) {
 	if r.Chance(1, 5) {
 		tr[wHopNames[r.Intn(len(wHopNames))]] = []string{"x"}
 	}
+	// trailer maps in which nothing (or not everything) is encodable
+	switch r.Intn(10) {
+	case 0: // announced as net/http documents it, never filled in
+		tr = http.Header{"X-Checksum": nil}
+	case 1: // empty value slices only
+		tr = http.Header{"X-Checksum": {}, "X-T1": nil}
+	case 2: // only names that may not be sent in a trailer section
+		tr = http.Header{pick(r, wBadTrail): {"x"}, pick(r, wHopNames): {"y"}}
+	case 3: // mixture
+		tr = http.Header{"X-Checksum": nil, "Content-Length": {"5"}, "X-T1": {"v"}, "Upgrade": {"x"}}
+	case 4:
+		tr = http.Header{}
+	case 5: // unsendable with value + sendable without
+		tr = http.Header{"Upgrade": {"x"}, "X-T1": {}}
+	}
 	detail := fmt.Sprintf("request trailers=%q", tr)
 	defer func() {
 		if p := recover(); p != nil {
@@ -419,9 +500,26 @@ func (h *h3run) writerTrailers(r *u.Rng, i int) {
 		}
 	}()
 	fs, written, err := http3.VerifEncodeRequestTrailers(tr)
+	if err == nil {
+		res := "None"
+		if written {
+			res = u.Opt(true, coqFields(fs))
+		}
+		fmt.Fprintf(h.w, "CASE %d %s\n", map[bool]int{false: 0, true: 1}[written], u.App("WTr", coqHeader(tr), res))
+	}
 	if err != nil {
-		h.monfail("h3writers/trailers-undecodable", err.Error(), detail)
+		h.monfail("h3writers/trailers-undecodable", "writeTrailers emitted a HEADERS frame the peer cannot decode: "+err.Error(), detail)
 		return
+	}
+	wantWritten := false
+	for k, vs := range tr {
+		lk := strings.ToLower(k)
+		if !rfcNoTrailer[lk] && !rfcConnSpecific[lk] && !strings.HasPrefix(lk, "if-") && len(vs) > 0 {
+			wantWritten = true
+		}
+	}
+	if written != wantWritten {
+		h.monfail("h3writers/trailers-emit-decision", fmt.Sprintf("trailer section written=%v, want %v (an all-skipped trailer set must emit no section)", written, wantWritten), detail)
 	}
 	if !written {
 		h.dist["trailers:none-written"]++
@@ -436,7 +534,86 @@ func (h *h3run) writerTrailers(r *u.Rng, i int) {
 	}
 	h.dist["trailers:accepted"]++
 	want := lowerKeys(tr, func(k string) bool { return rfcNoTrailer[k] || rfcConnSpecific[k] || strings.HasPrefix(k, "if-") })
+	for k, vs := range want {
+		if len(vs) == 0 { // announced, never filled in: nothing to send
+			delete(want, k)
+		}
+	}
 	if !sameMultimap(lowerKeys(got, nil), want) {
 		h.monfail("h3writers/trailers-differ", fmt.Sprintf("trailers %q after the round trip, want %q", got, want), detail)
+	}
+}
+
+// ---- correspondence cases for the H3Writers model ----
+
+func h3wStrList(xs []string) string {
+	q := make([]string, len(xs))
+	for i, x := range xs {
+		q[i] = hs(x)
+	}
+	return u.List(q)
+}
+
+// h3wRequestCase prints the abstract request (what encodeHeaders reads, external steps resolved)
+// and the emitted field list. The iteration order of req.Trailer is an oracle recovered from the
+// emitted "trailer" field; the order of req.Header does not matter (multiset comparison).
+func h3wRequestCase(w *bufio.Writer, req *http.Request, gzip bool, fs []hf, err error) {
+	if err != nil && strings.HasPrefix(err.Error(), "verif:") {
+		return
+	}
+	a := http3.VerifAbstractRequest(req)
+	var order []string
+	seen := map[string]bool{}
+	for _, f := range fs {
+		if f.Name == "trailer" {
+			for _, k := range strings.Split(f.Value, ", ") {
+				if _, ok := req.Trailer[k]; ok && !seen[k] {
+					order = append(order, k)
+					seen[k] = true
+				}
+			}
+		}
+	}
+	var rest []string
+	for k := range req.Trailer {
+		if !seen[k] {
+			rest = append(rest, k)
+		}
+	}
+	sort.Strings(rest)
+	order = append(order, rest...)
+	res, nt := "None", 0
+	if err == nil {
+		res, nt = u.Opt(true, coqFields(fs)), 1
+	}
+	fmt.Fprintf(w, "CASE %d %s\n", nt, u.App("WReq", hs(a.Method), hs(a.Scheme), hs(a.Host), u.B(a.HostOK), hs(a.URI), hs(a.Proto),
+		coqHeader(req.Header), u.B(gzip), u.Z(a.CL), h3wStrList(order), res))
+}
+
+func h3wResponseCases(w *bufio.Writer, status int, hdr http.Header, body []byte, trailerVals http.Header, early bool,
+	fs, tfs []hf, snap1, snap2 http.Header, err error) {
+	if snap1 == nil || fs == nil {
+		return
+	}
+	fmt.Fprintf(w, "CASE 1 %s\n", u.App("WRsp", u.Z(int64(status)), coqHeader(snap1), coqFields(fs)))
+	if len(body) == 0 { // WriteHeader's defaults (with a body, content-type sniffing interferes)
+		before := hdr.Clone()
+		if early {
+			for k, vv := range trailerVals {
+				before[k] = vv
+			}
+		}
+		date := ""
+		if d := snap1["Date"]; len(d) > 0 {
+			date = d[0]
+		}
+		fmt.Fprintf(w, "CASE 1 %s\n", u.App("WPrep", hs(date), coqHeader(before), coqHeader(snap1)))
+	}
+	if snap2 != nil && err == nil {
+		res, nt := "None", 0
+		if tfs != nil {
+			res, nt = u.Opt(true, coqFields(tfs)), 1
+		}
+		fmt.Fprintf(w, "CASE %d %s\n", nt, u.App("WRspTr", coqHeader(snap1), coqHeader(snap2), res))
 	}
 }
